@@ -45,7 +45,10 @@ Inductive event :=
 | Cancel (r : rid)           (* caller r's task is cancelled *)
 | Advance (dt : N)           (* virtual time passes; due timers fire in order *)
 | PeerClose                  (* connection reset by peer: connection_lost(exc) *)
-| PeerEof.                   (* FIN: eof_received() -> False -> transport.close() *)
+| PeerEof                    (* FIN: eof_received() -> False -> transport.close() *)
+| LocalClose.                (* another task awaits connection.close() / pairing.close(): closing := True,
+                                _drop_transport() (transport.close(), transport/protocol := None at once),
+                                connection_lost via call_soon -> _cancel_pending_requests() *)
 
 Inductive outcome :=
 | Resp (n : N)               (* the caller got the HTTP message with payload n *)
@@ -163,7 +166,9 @@ Definition step (s : st) (e : event) : st * list output :=
           else (mkst (t + dt) (opened s) (next s) (inflight s) (waiters s), [])
       | [] => (mkst (t + dt) (opened s) (next s) (inflight s) (waiters s), [])
       end
-  | PeerClose | PeerEof =>
+  | PeerClose | PeerEof | LocalClose =>
+      (* in all three cases connection_lost runs before quiescence: every future in result_cbs gets
+         AccessoryDisconnectedError, every caller woken from the semaphore finds protocol None *)
       if opened s then (closed_st s t, flush_out t (inflight s) (waiters s)) else (s, [])
   end.
 
